@@ -27,6 +27,8 @@ def pairs(feature, maxsub):
     """(description, target item key, attribute A, attribute B) — A and B are claimed to expand identically."""
     out = []
     fnopts = ["no_deps", "export", "mock_api = TMock", "mockall", "?Send"] + (["unimock"] if feature else [])
+    # explicit values in the order permutations as well (a check that only sees the options parsed so far is order-dependent)
+    valued = ["unimock = false", "mockall = false", "export = false", "mock_api = TMock", "no_deps = false"]
     boolopts = ["no_deps", "export", "mockall"] + (["unimock"] if feature else [])
     for tgt, name in (("fn", "T"), ("fn_async", "T"), ("mod", "pub T")):
         for o in boolopts:
@@ -40,6 +42,9 @@ def pairs(feature, maxsub):
                 for perm in itertools.permutations(sub):
                     if perm != sub:
                         out.append(("order %s == %s" % (list(perm), list(sub)), tgt, attr("entrait", name, perm), base))
+        for sub in itertools.combinations(valued, 2):
+            base = attr("entrait", name, sub)
+            out.append(("order %s == %s" % ([sub[1], sub[0]], list(sub)), tgt, attr("entrait", name, (sub[1], sub[0])), base))
         # macro variants
         for sub in [()] + [(o,) for o in fnopts if o != "export"] + [("mock_api = TMock", "mockall")]:
             out.append(("entrait_export(%s) == entrait(%s, export)" % (", ".join(sub), ", ".join(sub)), tgt,
@@ -78,6 +83,8 @@ def pairs(feature, maxsub):
             for perm in itertools.permutations(sub):
                 if perm != sub:
                     out.append(("order %s == %s" % (list(perm), list(sub)), "trait", attr("entrait", None, perm), base))
+    for sub in itertools.combinations(["unimock = false", "mockall = false", "mock_api = TMock", "delegate_by = ref"], 2):
+        out.append(("order %s == %s" % ([sub[1], sub[0]], list(sub)), "trait", attr("entrait", None, (sub[1], sub[0])), attr("entrait", None, sub)))
     for sub in [(), ("mockall",), ("mock_api = TMock",)]:
         # `export` is not an option of trait inputs: the shorthand is only observable through the gate
         pass
